@@ -372,6 +372,21 @@ void vf_case(Ctx& ctx, uint64_t i) {
     }
   }
   if (O.empty()) { ctx.count("no_open_path_accepted"); return; }
+  // anisotropic variant: stretch the whole case (closed and open paths) in x so that open and closed edges are both
+  // nearly horizontal (|dx/dy| > 100): the sweep's flat-edge intersection repair is only reached by such scenes
+  if (sc.squash == 0 && magexp >= 20 && r.chance(0.15)) {
+    static const int64_t ks[] = { 30, 200, 1500, 20000 };
+    int64_t k = ks[r.irange(0, 3)];
+    int64_t mx = std::max(max_abs_coord(closed_in), max_abs_coord(O));
+    if (mx > 0 && mx <= ((int64_t)1 << std::min(maxexp, 46)) / k) {
+      Paths64 S2 = S, C2 = C, O2 = O;
+      for (auto* pp : { &S2, &C2, &O2 }) for (auto& p : *pp) for (auto& pt : p) pt.x *= k;
+      Paths64 cl2 = concat(S2, C2); int64_t M2 = std::max(max_abs_coord(cl2), max_abs_coord(O2));
+      if (general_position(cl2, max_abs_coord(cl2)) && c05::mixed_general_position(cl2, O2, M2, nullptr, relax)) {
+        S.swap(S2); C.swap(C2); O.swap(O2); closed_in = cl2; bounds(closed_in, x0, y0, x1, y1, any = false); ctx.count("cases_stretched_in_x");
+      } else ctx.count("stretch_rejected_by_general_position");
+    }
+  }
   int mode = (i % 29 == 11) ? 1 : 0;
   if (mode == 0 && r.chance(0.15)) {          // repeated points inside a polyline: same polyline
     Path64& p = O[(size_t)r.irange(0, (int)O.size() - 1)];
